@@ -66,6 +66,40 @@ def h_flowneutral(run, cfg):
         run.check_near(s.prices[d], 100.0, EPS_P, 'flow-does-not-move-index', 'recorded %s' % d)
 
 
+def h_capitalflow(run, cfg):
+    """CapitalFlow algos inside a real Backtest: the index follows the recurrence with the flows the algos injected, whatever else runs that date"""
+    B = bt()
+    A = B.algos
+    dts = dates(4)
+    PR4 = {'a': [100.0, 105.0, 95.0, 101.5], 'b': [37.5, 33.0, 41.25, 40.0]}
+    data = frame(run, dts, ['a', 'b'], lambda i, c: PR4[c][i])
+    flow = cfg['flow']
+    stacks = {
+        'flow_only': [A.CapitalFlow(flow)],
+        'flow_then_idle': [A.CapitalFlow(flow), A.RunOnce(), A.SelectAll(), A.WeighSpecified(a=0.5, b=0.25), A.Rebalance()],
+        'rebalance_then_flow': [A.RunDaily(), A.SelectAll(), A.WeighSpecified(a=0.5, b=0.25), A.Rebalance(), A.CapitalFlow(flow)],
+        'flow_then_rebalance': [A.CapitalFlow(flow), A.SelectAll(), A.WeighSpecified(a=0.5, b=0.25), A.Rebalance()],
+    }
+    s = B.Strategy('s', stacks[cfg['stack']])
+    cap = run.real('cap', 10 ** 4, 10 ** 7)
+    t = B.Backtest(s, data, initial_capital=cap, integer_positions=False)
+    try:
+        t.run()
+    except ZeroDivisionError:
+        run.end('zero-base')
+    st = t.strategy
+    if st.bankrupt:
+        run.end('bankrupt')
+    P, V = st.prices, st.values
+    idx = list(P.index)
+    run.check_near(P.iloc[0], 100.0, EPS_P, 'starts-at-100')
+    run.check_near(V.iloc[0], cap, 1e-6, 'initial-capital-enters-as-flow')
+    for i in range(1, len(idx)):
+        base = V.iloc[i - 1] + flow
+        run.check_near(P.iloc[i] * base, P.iloc[i - 1] * V.iloc[i], EPS_P * 1000, 'index-recurrence', 'date %s' % idx[i])
+        run.check_near(st.flows.iloc[i], flow, 1e-6, 'flow-row', str(idx[i]))
+
+
 def h_scale(run, cfg):
     """index free of the capital multiple: fractional positions, proportional commission"""
     B = bt()
@@ -114,7 +148,7 @@ def h_scale(run, cfg):
     run.check(True, 'index-independent-of-capital')
 
 
-HARNESSES = {'recurrence': h_recurrence, 'scale': h_scale, 'flowneutral': h_flowneutral}
+HARNESSES = {'recurrence': h_recurrence, 'scale': h_scale, 'flowneutral': h_flowneutral, 'capitalflow': h_capitalflow}
 WITNESS_CAP = {'quick': 120, 'thorough': 300}
 
 
@@ -153,6 +187,9 @@ def plan(tier):
         cfg = dict(shape='S1', int=0, fee=['uf'], spread=1, ops=[list(o) for o in seq], mult=1, solvent=0, tail_next=1)
         tasks.append(dict(harness='recurrence', cfg=cfg, opts=opts))
     tasks.append(dict(harness='flowneutral', cfg={}, opts=opts))
+    for stk in ('flow_only', 'flow_then_idle', 'rebalance_then_flow', 'flow_then_rebalance'):
+        for fl in (2500.0, -1000.0, 7.5):
+            tasks.append(dict(harness='capitalflow', cfg=dict(stack=stk, flow=fl), opts=opts))
     for ws in ([[0.625, 0.25, 0], [0.25, 0.5, 0.5], [0.5, -0.25, -0.25], [0.0, 0.75, 0]], [[1.0, 0.0, 0], [0.0, 1.0, 1.0], [0.5, 0.5, 0], [0.25, 0.25, -0.5]]):
         for fee in (0.0078125, 0.0):
             tasks.append(dict(harness='scale', cfg=dict(weights=ws, fee=fee), opts=opts))
